@@ -14,6 +14,7 @@ invariant `PInv` and `handleDuplicate` · 4 the tree invariant `CInv`, `addObjec
 -/
 import PdModel.PostProcess
 import PdModel.Registry
+import PdProps.C02Mod
 
 namespace Registry
 
@@ -2322,3 +2323,220 @@ theorem implementedBy_inverse (decls : List (Nat × Option Nat)) (i x : Nat) :
 example : implementedBy [(5, some 1), (6, none), (5, some 1), (7, some 1), (5, some 2)] 1 = [5, 7] := by decide
 
 end PostProcess
+
+
+/-! ## The module table: duplicate module names (`System._addUnprocessedModule`,
+`_handleDuplicateModule`, `_remove`; model PdModel/ModTable.lean, helper layers PdProps/C02Mod.lean)
+
+For EVERY history of `analyzeModule` / `addModuleString` / `introspectModule` calls whose parent
+argument is `None` or a package registered at that moment (`histOk`, which is what the callers
+pass), in particular with any number of duplicate names at root and nested level:
+no call raises (`step_ok`, `run_ok`) and the invariant `Inv` (C02Mod, Layer 2) holds after every
+call (`inv_step`, `inv_run`).  The corollaries below spell its clauses out in terms of the model's
+own functions. -/
+namespace ModTable
+open Registry (Name Path dget dhas dset ddel)
+
+theorem inv_init : Inv init := init_inv
+
+/-- one add does not raise: no `KeyError` from `del allobjects[..]`, no `ValueError` from
+`rootobjects.remove`, no recursion that does not end -/
+theorem step_ok (s : State) (op : Op) (h : Inv s) (hok : opOk s op = true) : ∃ s', step s op = .ok s' := by
+  obtain ⟨_, _, s', h1, _, _⟩ := addModule_spec h op hok
+  exact ⟨s', h1⟩
+
+theorem inv_step (s s' : State) (op : Op) (h : Inv s) (hok : opOk s op = true) (hs : step s op = .ok s') :
+    Inv s' := by
+  obtain ⟨_, _, s'', h1, h2, _⟩ := addModule_spec h op hok
+  rw [h1] at hs; cases hs; exact h2
+
+theorem inv_run_from : ∀ (ops : List Op) (s : State), Inv s → histOk s ops = true →
+    Inv (run s ops).1 ∧ ∀ e ∈ (run s ops).2, e = none
+  | [], s, h, _ => ⟨h, by simp [run, runWith]⟩
+  | op :: ops, s, h, hh => by
+    simp only [histOk, Bool.and_eq_true] at hh
+    obtain ⟨_, _, s', h1, h2, _⟩ := addModule_spec h op hh.1
+    have hh2 := hh.2
+    rw [h1] at hh2
+    have ih := inv_run_from ops s' h2 hh2
+    have hr : run s (op :: ops) = ((run s' ops).1, none :: (run s' ops).2) := by
+      simp [run, runWith, h1]
+    rw [hr]
+    exact ⟨ih.1, fun e he => by
+      rcases List.mem_cons.1 he with rfl | he
+      · rfl
+      · exact ih.2 e he⟩
+
+/-- the invariant holds after every history that meets the precondition -/
+theorem inv_run (ops : List Op) (h : histOk init ops = true) : Inv (run init ops).1 :=
+  (inv_run_from ops init inv_init h).1
+
+/-- ... and none of its operations raises -/
+theorem run_ok (ops : List Op) (h : histOk init ops = true) : ∀ e ∈ (run init ops).2, e = none :=
+  (inv_run_from ops init inv_init h).2
+
+/-- the witness of commit 6850302 and more: packages with sub-modules added before and after the
+duplicate arrives, C modules, nested duplicates -/
+def sampleOps : List Op :=
+  [⟨.package, ['m'], none⟩, ⟨.module, ['a'], some 0⟩, ⟨.package, ['m'], none⟩, ⟨.module, ['b'], some 2⟩,
+   ⟨.package, ['s'], some 2⟩, ⟨.module, ['x'], some 4⟩, ⟨.cmodule, ['b'], some 2⟩, ⟨.module, ['b'], some 2⟩,
+   ⟨.package, ['s'], some 2⟩, ⟨.module, ['m'], none⟩]
+
+/-- non-vacuity: a history with duplicates at both levels meets the precondition -/
+example : histOk init sampleOps = true := by decide +kernel
+example : (run init sampleOps).1.all = [([['m']], 2), ([['m'], ['b']], 6), ([['m'], ['s']], 8)] := by decide +kernel
+
+/-- registry keys are unique, and every entry sits under the path its parent chain spells -/
+theorem registered_under_chain_name {s : State} (h : Inv s) :
+    (s.all.map Prod.fst).Nodup ∧ ∀ k i, (k, i) ∈ s.all → path s i = some k :=
+  ⟨h.keys, fun k i hk => path_of_hasPath h.ord (h.names k i hk)⟩
+
+/-- exactly the registered modules are pending (and so exactly they are analysed), in registry order -/
+theorem pending_are_registered {s : State} (h : Inv s) :
+    s.unproc = s.all.map Prod.snd ∧ ∀ i, i ∈ s.unproc ↔ registered s i = true := by
+  refine ⟨h.pending, fun i => ?_⟩
+  rw [h.pending, registered, List.contains_iff_mem]
+
+/-- a registered module's parent is registered and lists it under its name -/
+theorem parent_registered {s : State} (h : Inv s) (k : Path) (i p : Nat) (o : MObj)
+    (hk : (k, i) ∈ s.all) (ho : s.objs[i]? = some o) (hp : o.parent = some p) :
+    registered s p = true ∧ ∃ po, s.objs[p]? = some po ∧ dget po.contents o.name = some i := by
+  obtain ⟨hr, d, hd, hdg⟩ := h.parentReg k i o.name p hk (sk_some.2 ⟨o, ho, rfl, hp⟩)
+  obtain ⟨po, hpo, rfl⟩ := ct_some.1 hd
+  exact ⟨registered_iff.2 hr, po, hpo, hdg⟩
+
+/-- every `contents` entry of a registered module is registered, has that parent and that name -/
+theorem contents_registered {s : State} (h : Inv s) (k : Path) (q c : Nat) (qo : MObj) (n : Name)
+    (hk : (k, q) ∈ s.all) (hq : s.objs[q]? = some qo) (hm : (n, c) ∈ qo.contents) :
+    registered s c = true ∧ ∃ co, s.objs[c]? = some co ∧ co.parent = some q ∧ co.name = n := by
+  obtain ⟨hr, hg⟩ := h.contents q qo.contents n c ⟨k, hk⟩ (ct_some.2 ⟨qo, hq, rfl⟩) hm (by simp)
+  obtain ⟨co, hco, h1, h2⟩ := sk_some.1 hg
+  exact ⟨registered_iff.2 hr, co, hco, h2, h1⟩
+
+/-- a registered parentless module is a root; every root is registered and parentless; `rootobjects`
+has no duplicates and no two roots share a name (hence a page file) -/
+theorem roots_registered_unique {s : State} (h : Inv s) :
+    (∀ k i o, (k, i) ∈ s.all → s.objs[i]? = some o → o.parent = none → i ∈ s.roots) ∧
+    (∀ r, r ∈ s.roots → registered s r = true ∧ ∃ o, s.objs[r]? = some o ∧ o.parent = none) ∧
+    s.roots.Nodup ∧
+    (∀ r r' o o', r ∈ s.roots → r' ∈ s.roots → s.objs[r]? = some o → s.objs[r']? = some o' →
+      o.name = o'.name → r = r') := by
+  refine ⟨fun k i o hk ho hp => h.rootIn k i o.name hk (sk_some.2 ⟨o, ho, rfl, hp⟩), fun r hr => ?_,
+    h.rootsNodup, fun r r' o o' hr hr' ho ho' hn => ?_⟩
+  · obtain ⟨hreg, n, hn⟩ := h.roots r hr
+    obtain ⟨o, ho, _, hp⟩ := sk_some.1 hn
+    exact ⟨registered_iff.2 hreg, o, ho, hp⟩
+  · obtain ⟨⟨k, hk⟩, n, hg⟩ := h.roots r hr
+    obtain ⟨⟨k', hk'⟩, n', hg'⟩ := h.roots r' hr'
+    obtain ⟨o1, ho1, e1, _⟩ := sk_some.1 hg
+    obtain ⟨o2, ho2, e2, _⟩ := sk_some.1 hg'
+    rw [ho] at ho1; cases ho1
+    rw [ho'] at ho2; cases ho2
+    have hk1 : k = [n] := (h.names k r hk).func (.root hg)
+    have hk2 : k' = [n'] := (h.names k' r' hk').func (.root hg')
+    subst hk1; subst hk2
+    rw [← e1, hn, e2] at hk
+    exact uniq_val h.keys hk hk'
+
+/-- The winner rule. `first` holds the name the new module `dup` (object `s.objs.length`) asks for.
+A C module against a non-package and a package against a non-package keep `first`: nothing changes
+but the unregistered object. Otherwise `dup` is registered under the name, and `first` with everything
+below it is gone from `allobjects`, `unprocessed_modules` and `rootobjects`, while everything else
+stays registered. -/
+theorem winner_rule (s : State) (op : Op) (h : Inv s) (hok : opOk s op = true) (fn : Path) (first : Nat) (fo : MObj)
+    (hfn : path (create s op.kind op.name op.parent) s.objs.length = some fn)
+    (hfirst : dget s.all fn = some first) (hfo : s.objs[first]? = some fo) :
+    ∃ s', step s op = .ok s' ∧
+      if (fo.kind.isC && !op.kind.isPkg) || (fo.kind.isPkg && !op.kind.isPkg) then
+        s'.all = s.all ∧ s'.roots = s.roots ∧ s'.unproc = s.unproc
+      else
+        dget s'.all fn = some s.objs.length ∧
+        (∀ i, Below (sk s.objs) first i → registered s' i = false ∧ i ∉ s'.unproc ∧ i ∉ s'.roots) ∧
+        (∀ k i, (k, i) ∈ s.all → ¬Below (sk s.objs) first i → (k, i) ∈ s'.all) := by
+  obtain ⟨fn', hfn', s', h1, h2, hout⟩ := addModule_spec h op hok
+  rw [hfn] at hfn'; cases hfn'
+  refine ⟨s', h1, ?_⟩
+  have hflt : first < s.objs.length := (List.getElem?_eq_some_iff.1 hfo).1
+  have hfoA : (create s op.kind op.name op.parent).objs[first]? = some fo := by
+    show (s.objs ++ [_])[first]? = _
+    rw [List.getElem?_append_left hflt]; exact hfo
+  have hallA : (create s op.kind op.name op.parent).all = s.all := rfl
+  rcases hout with ⟨hnone, _⟩ | ⟨first', fo', hd, hfo', hkeep, rfl⟩ | ⟨first', fo', sB, hd, hfo', hkeep, hmid, hall, hunp, hroots⟩
+  · rw [hallA, hfirst] at hnone; cases hnone
+  · rw [hallA, hfirst] at hd; cases hd
+    rw [hfoA] at hfo'; cases hfo'
+    rw [keepFirst] at hkeep
+    rw [if_pos hkeep]
+    exact ⟨rfl, rfl, rfl⟩
+  · rw [hallA, hfirst] at hd; cases hd
+    rw [hfoA] at hfo'; cases hfo'
+    rw [keepFirst] at hkeep
+    rw [if_neg (by rw [hkeep]; simp)]
+    -- below `first`, before and after the construction of the new object
+    have hbel : ∀ i, Below (sk s.objs) first i → Below (sk (create s op.kind op.name op.parent).objs) first i :=
+      fun i hb => hb.ext (fun j x hx => sk_append_ext _ hx)
+    have hbel' : ∀ i, i < s.objs.length → Below (sk (create s op.kind op.name op.parent).objs) first i →
+        Below (sk s.objs) first i := by
+      intro i hi hb
+      induction hb with
+      | refl => exact .refl
+      | @step j n p hg hb' ih =>
+        have hg' : sk (s.objs ++ [⟨op.name, op.parent, op.kind, []⟩]) j = some (n, some p) := hg
+        rw [sk_append_lt _ hi] at hg'
+        exact .step hg' (ih (Nat.lt_trans (h.ord _ _ _ hg') hi))
+    have hmem' : ∀ k i, (k, i) ∈ s'.all ↔ (((k, i) ∈ s.all ∧ ¬Below (sk (create s op.kind op.name op.parent).objs) first i)
+        ∨ (k = fn ∧ i = s.objs.length)) := by
+      intro k i
+      rw [hall, List.mem_append, hmid.mem, hallA]
+      simp
+    have hne : first ≠ s.objs.length := Nat.ne_of_lt hflt
+    have hnew : ¬Below (sk s.objs) first s.objs.length := by
+      intro hb
+      cases hb with
+      | refl => exact hne rfl
+      | step hg _ => exact absurd (sk_lt hg) (Nat.lt_irrefl _)
+    refine ⟨?_, fun i hb => ⟨?_, ?_, ?_⟩, fun k i hk hnb => ?_⟩
+    · exact dget_of_mem h2.keys ((hmem' fn _).2 (Or.inr ⟨rfl, rfl⟩))
+    · cases hr : registered s' i with
+      | false => rfl
+      | true =>
+        obtain ⟨k, hk⟩ := registered_iff.1 hr
+        rcases (hmem' k i).1 hk with ⟨_, hnb⟩ | ⟨_, rfl⟩
+        · exact absurd (hbel i hb) hnb
+        · exact absurd hb hnew
+    · intro hi
+      rw [h2.pending] at hi
+      obtain ⟨⟨k, j⟩, hk, rfl⟩ := List.mem_map.1 hi
+      rcases (hmem' k j).1 hk with ⟨_, hnb⟩ | ⟨_, e⟩
+      · exact hnb (hbel j hb)
+      · subst e
+        exact hnew hb
+    · intro hi
+      rcases hroots i hi with ⟨hiA, hif⟩ | rfl
+      · have hiS : i ∈ s.roots := hiA
+        obtain ⟨_, n, hn⟩ := h.roots i hiS
+        exact hif (hb.of_root hn)
+      · exact hnew hb
+    · refine (hmem' k i).2 (Or.inl ⟨hk, fun hb => hnb (hbel' i (h.lt ⟨k, hk⟩) hb)⟩)
+
+/-- Historical (before commit 6850302). Roots `a/mod/{__init__,suba}.py` and `b/mod/{__init__,subb}.py`:
+the second package `mod` replaces the first. With the old step the sub-module `mod.suba` of the
+replaced package stays pending although it is not registered (it is then analysed, and its classes are
+registered under a parent that is not), and `rootobjects` holds two roots named `mod`. -/
+def witnessOps : List Op :=
+  [⟨.package, ['m', 'o', 'd'], none⟩, ⟨.module, ['s', 'u', 'b', 'a'], some 0⟩,
+   ⟨.package, ['m', 'o', 'd'], none⟩, ⟨.module, ['s', 'u', 'b', 'b'], some 2⟩]
+
+theorem old_replaced_package_counterexample :
+    histOk init witnessOps = true ∧
+    (runOld init witnessOps).2 = [none, none, none, none] ∧
+    (runOld init witnessOps).1.unproc = [1, 2, 3] ∧ registered (runOld init witnessOps).1 1 = false ∧
+    (runOld init witnessOps).1.roots = [0, 2] ∧
+    ((runOld init witnessOps).1.objs.map (·.name))[0]? = ((runOld init witnessOps).1.objs.map (·.name))[2]? ∧
+    invB (runOld init witnessOps).1 = false := by decide +kernel
+
+/-- the same history with the step as it is now -/
+example : (run init witnessOps).1.unproc = [2, 3] ∧ (run init witnessOps).1.roots = [2] ∧
+    invB (run init witnessOps).1 = true := by decide +kernel
+
+end ModTable
